@@ -59,7 +59,7 @@ func C19() *engine.Scenario {
 		ID:    "C19",
 		Level: "exploration",
 		Setup: loadKeys,
-		Rule:  "Caller goroutines under a token scheduler, built with -race. Each run: 2-16 tasks (real goroutines); every task has a program of 3-10 library calls: on its own objects (parse, interpolate, marshal JSON/YAML, SignSteps, Verify, matrix-interpolate, ordered-map histories) and read-only calls on SHARED objects (an ordered map carrying tombstones: Len/Get/Contains/Range/Equal/ToMap/MarshalJSON/MarshalYAML; a parsed pipeline: marshals; plugins: FullSource; a signed step + public key set: Verify; shared private key: Sign). Exactly one task holds the token; which task runs each turn is pre-drawn from the sched tape; the hand-off is invisible to the race detector. Oracle: (i) the race detector's log is empty after the run; (ii) each task's results equal those of running its program alone (sequential specification = the same code without company); (iii) a deep dump (go-spew: unexported fields, lengths, capacities) of every observed go-pipeline object is identical before and after each observer call and, for shared objects, before and after the whole run. In the thorough tier 1 run in 4 also lets the same programs run free (Go scheduler decides; labelled 'free-running', genuine but not schedule-replayable). Fingerprint = hash(task schedule, op kinds). Non-trivial = >=2 tasks interleave >=2 turns each with at least one shared-object call.",
+		Rule:  "Caller goroutines under a token scheduler, built with -race. Each run: 2-16 tasks (real goroutines); every task has a program of 3-10 library calls: on its own objects (parse, interpolate, marshal JSON/YAML, SignSteps, Verify, matrix-interpolate, ordered-map histories) and read-only calls on SHARED objects (an ordered map carrying tombstones: Len/Get/Contains/Range/Equal/ToMap/MarshalJSON/MarshalYAML; a parsed pipeline: marshals; plugins: FullSource; a signed step + public key set: Verify; shared private key: Sign). Exactly one task holds the token; which task runs each turn is pre-drawn from the sched tape; the hand-off is invisible to the race detector. Oracle: (i) the race detector's log is empty after the run; (ii) each task's results equal those of running its program alone (sequential specification = the same code without company); (iii) a deep dump (go-spew: unexported fields, lengths, capacities) of every observed go-pipeline object is identical before and after each observer call and, for shared objects, before and after the whole run. One run in three is a cold-start run: no shared pipeline is parsed or signed beforehand and every task begins with the same call; the driver executes a slice of the runs as the first and only run of a fresh process, so state initialised on first use is initialised under concurrency. In the thorough tier 1 run in 4 also lets the same programs run free (Go scheduler decides; labelled 'free-running', genuine but not schedule-replayable). Fingerprint = hash(task schedule, op kinds). Non-trivial = >=2 tasks interleave >=2 turns each with at least one shared-object call.",
 		Real:  []string{"every exported entry point used by the tasks: Parse, Interpolate, json/yaml.Marshal of pipelines, SignSteps/Sign/Verify, InterpolateMatrixPermutation, ordered.Map observers and mutators, Plugin.FullSource", "the Go race detector (ThreadSanitizer) as memory-access oracle"},
 		Stub:  []string{"task programs (generator)", "token scheduler in place of the Go scheduler's choice of who runs", "go-spew deep dump"},
 		Assume: []string{"granularity is one library call per turn: data races do not need finer interleaving (TSan reports two conflicting, unordered accesses whenever both happen)", "third-party key objects (jwx) are judged by the race log only: they may cache under their own locks",
